@@ -35,7 +35,7 @@ def lit(v):
 BINOPS = ["+", "-", "*", "/", "%", "**", "<", "<=", ">", ">=", "==", "!=", "~=", "!~", "in", "&&", "||", ".."]
 
 def pool(tier):
-    p = [0, 1, 2, 10, 65534, 65535, 65536, -1, 1.5, 0.0, 2.25, "", "a", "abc", "10", "9", True, False, None,
+    p = [0, 1, 2, 10, 65534, 65535, 65536, -1, 1.5, 0.0, 2.25, "", "a", "abc", "10", "9", "héllo", "éabc", True, False, None,
          [], [1, "a"], {}, {"a": 1}, ("re", "/a/"), ("re", "/^a.*b$/i")]
     if tier == "thorough":
         p = INTS + NEG + FLOATS + STRS + [True, False, None] + ARRS + HASHES + [("re", r) for r in REGEXPS]
